@@ -609,6 +609,7 @@ type linWorld struct {
 	sessOf   map[*Sess]wamp.ID
 	strict   bool
 	blind    []wamp.ID
+	net      bool // a third of the sessions over simulated rawsocket / websocket
 }
 
 func (lw *linWorld) stamp() int64 { lw.ev++; return lw.ev }
@@ -617,7 +618,15 @@ const linPatience = 20 * time.Second
 
 func (lw *linWorld) newSess(cl *linClient) *Sess {
 	cl.gen++
-	s := lw.w.NewSess(fmt.Sprintf("c%d.%d", cl.idx, cl.gen), "r1", lw.c.Gen.Bool(), 512, nil)
+	// transport and locality are a function of (run, client, generation), not of the moment of joining
+	sg := NewRand(Mix(lw.c.Spec.GenSeed, uint64(cl.idx*64+cl.gen)))
+	name := fmt.Sprintf("c%d.%d", cl.idx, cl.gen)
+	var s *Sess
+	if lw.net {
+		s = NewAnySess(lw.c, lw.w, sg, name, "r1", 512, nil)
+	} else {
+		s = lw.w.NewSess(name, "r1", sg.Bool(), 512, nil)
+	}
 	s.grp = cl.grp // the client's actor, reader and handlers are one party
 	cl.s = s
 	cl.subs, cl.regs = nil, nil
@@ -1112,7 +1121,7 @@ func runLin(c *Ctx, fl linFlavour) {
 		return
 	}
 	c.W = w
-	lw := &linWorld{c: c, w: w, pubs: map[string]*linOp{}, calls: map[string]*linOp{}, pubReq: map[string]wamp.ID{}, internal: map[wamp.ID]bool{}, sessOf: map[*Sess]wamp.ID{}, strict: strict}
+	lw := &linWorld{c: c, w: w, pubs: map[string]*linOp{}, calls: map[string]*linOp{}, pubReq: map[string]wamp.ID{}, internal: map[wamp.ID]bool{}, sessOf: map[*Sess]wamp.ID{}, strict: strict, net: g.Chance(1, 3)}
 	ncl := g.Range(2, 5)
 	per := g.Range(3, 9)
 	if c.Thorough {
